@@ -126,6 +126,18 @@ CHECKS["C09"] = {
     "technique": "bounded symbolic execution (CrossHair + z3) of generator/overlay histories vs an open-overlays-only model",
 }
 
+CHECKS["C17"] = {
+    "category": "model_checking",
+    "text": "Every history of <= 5 (thorough 7) operations over {attach non-reducing stage, attach reducing stage "
+            "(max/min/count/sum/last), activate, call, deactivate normally, deactivate by exception, re-activation attempt} on one "
+            "real probe, activation/deactivation going through the root or a derived handle and through both the context-manager "
+            "and activate()/deactivate() spellings; call values are unbounded symbolic ints so published reductions are compared as "
+            "formulas; after each step outputs, completion counts and instrumentation state must match an event-window model.",
+    "design_ref": "DESIGN.md section 4, C17",
+    "note": "The real giving/reactivex pipeline runs under the tracer. Reductions of an empty window only assert 'no value'.",
+    "technique": "bounded symbolic execution (CrossHair + z3) of probe lifecycle histories vs an event-window model",
+}
+
 NOT_YET = {}
 
 
